@@ -13,5 +13,5 @@ Extraction "model.ml"
   SafetyNames.normalize_hostname SafetyNames.si_names SafetyNames.api_browse
   SafetyNames.api_resolve_hostname SafetyNames.api_register SafetyNames.name_change
   SafetyNames.hostname_change SafetyNames.read_name_fit SafetyNames.present SafetyNames.encodable SafetyNames.chk_C15
-  SafetyQueue.run SafetyQueue.chk_C14 SafetyQueue.prepare ParamsSafety.len_max_refused
+  Bytes.lower SafetyQueue.run SafetyQueue.chk_C14 SafetyQueue.prepare ParamsSafety.len_max_refused
   N.eqb N.add N.mul N.land N.div N.modulo.
